@@ -75,6 +75,10 @@ var directedCases = []directedCase{
 	{name: "witness-unexpected", tmpl: "bare(pk)", mut: "unexpected-witness", flags: consensusAll, want: "WITNESS_UNEXPECTED"},
 	{name: "sig-hashtype", tmpl: "bare(pk)", mut: "hashtype", arg: 0x04, flags: consensusAll | fStrict, want: "SIG_HASHTYPE"},
 	{name: "sig-der", tmpl: "bare(pk)", mut: "der", arg: 0, flags: consensusAll, want: "SIG_DER"},
+	{name: "sig-without-hashtype-byte", tmpl: "bare(pk)", mut: "sig-hashtype-is-last-s-byte", arg: 1, flags: fP2SH | fCLTV | fCSV, want: "EVAL_FALSE"},
+	{name: "der-long-form-length-without-dersig", tmpl: "bare(pk)", mut: "der", arg: 4, flags: fP2SH, want: "OK"},
+	{name: "der-wrong-sequence-length-without-dersig", tmpl: "p2sh(pk)", mut: "der", arg: 7, flags: fP2SH, want: "OK"},
+	{name: "low-s-with-s-ge-n", tmpl: "bare(checksig-not-badsig)", mut: "badsig-mode", arg: 1, flags: fP2SH | fLowS, want: "OK"},
 	{name: "sig-high-s", tmpl: "bare(pk)", mut: "high-s", flags: consensusAll | fLowS, want: "SIG_HIGH_S"},
 	{name: "sig-nulldummy", tmpl: "bare(multisig)", mut: "multisig-dummy-nonnull", flags: consensusAll, want: "SIG_NULLDUMMY"},
 	{name: "pubkeytype", tmpl: "bare(pk)", mut: "key-hybrid", flags: consensusAll | fStrict, want: "PUBKEYTYPE"},
